@@ -19,7 +19,7 @@ RULE = (
 ASSUMPTIONS = [
     "indices beyond the explored n (exhaustive n<=N_EXH, sampled n<=5000) and k>4 are not covered",
 ]
-REQUIRED = {"unrank_checked": {"quick": 100000, "thorough": 1000000}, "scorer_runs": {"quick": 20, "thorough": 100}, "scorer_runs_production_regime": {"quick": 10, "thorough": 60}, "scorer_counting_runs": {"quick": 40, "thorough": 300}, "scorer_object_counting_runs": {"quick": 20, "thorough": 120}}
+REQUIRED = {"scorer_counting_runs_at_scale": {"quick": 1, "thorough": 1}, "unrank_checked": {"quick": 100000, "thorough": 1000000}, "scorer_runs": {"quick": 20, "thorough": 100}, "scorer_runs_production_regime": {"quick": 10, "thorough": 60}, "scorer_counting_runs": {"quick": 40, "thorough": 300}, "scorer_object_counting_runs": {"quick": 20, "thorough": 120}}
 
 N_EXH = {"quick": 40, "thorough": 64}
 BIG_N = [100, 317, 1000, 2000, 5000]
@@ -103,6 +103,23 @@ def run_shard(rec, tier, seed, shard, nshards):
             if shard == 0 and k == 3 and n == 1000:
                 i0 = sorted(idxs)[len(idxs) // 2]
                 rec.sample({"kind": "sampled", "n": n, "k": k, "index": i0, "tuple": list(fn(i0, n, k))})
+
+    # ---- one counting run at the scale of a real scoring job (a 9000-experiment plate, 25 samples: 2300 triples, all
+    #      covered by the budget; ~2e7 cells in the kernel's work arrays)
+    if shard == 0:
+        n_big, e_big = 25, 9000
+        tot_big = comb(n_big, 3)
+        pred_big = np.tile(rng.normal(size=(1, 1, e_big)), (1, n_big, 1))
+        try:
+            sc_big = G.dbal_fast_gauss_scoring_vectorized(pred_big, np.ones((1, n_big, e_big)), np.ones((n_big, n_big)) - np.eye(n_big), np.random.default_rng(3), max_combos=5000)
+        except Exception as e:
+            rec.violation("C15/scorer/raises", "counting run at scale raised %r" % (e,), {"n_thetas": n_big, "experiments": e_big})
+        else:
+            # every triple contributes log 3 - (E/2) log 3; the log of their number is what is left
+            log_used = float(np.asarray(sc_big, dtype=float)[0]) - (np.log(3.0) + e_big * (-0.5 * np.log(3.0)))
+            rec.count("scorer_counting_runs_at_scale")
+            rec.check(abs(log_used - np.log(tot_big)) <= 1e-6, "C15/scorer/triples-not-all-used", lambda: "one plate of %d experiments, %d samples, budget 5000: the kernel evaluated %.1f triples, all %d are covered by the budget" % (e_big, n_big, float(np.exp(log_used)), tot_big), {"n_thetas": n_big, "budget": 5000, "experiments": e_big})
+        del pred_big
 
     # ---- scorer runs: triples actually used by the kernel
     calls = []
